@@ -107,7 +107,7 @@ func genFiles(st *simrt.Stream, total int64, names func(int) []string) []FileSpe
 			path = []string{fmt.Sprintf("dir%d", st.Choice(2)), fmt.Sprintf("file%d.dat", i)}
 		}
 		if pad {
-			path = []string{".pad", fmt.Sprintf("%d", l)}
+			path = []string{".pad", fmt.Sprintf("%d-%d", i, l)} // unique
 		}
 		fs = append(fs, FileSpec{Path: path, Length: l, Pad: pad})
 		remain -= l
